@@ -12,12 +12,31 @@ TRUSTED = [
     "Crash.v: SQLite modelled as atomic statements with PK/FK enforcement and ON DELETE CASCADE (users <- appointments <- trackers); "
     "each autocommit statement and each explicit transaction is atomic and durable when the call returns: ASSUMED (a kill is simulated by "
     "unwinding at statement boundaries through hook H2, not by SIGKILL inside SQLite's own write path)",
+    "CrashOps.v: the durable trace (op_micro) of every operation of Tower.v, hand-written from gatekeeper/watcher/responder/dbm.rs; tied to the "
+    "model by the theorem op_is_its_trace and to the code by the micro-step comparison of this check (statement kinds from rusqlite's trace "
+    "hook on the tower's own connection + H2 labels + RPC kinds); CrashOps.restart: heights and indexes after a restart are those before the "
+    "interrupted operation (the last known block is persisted only after a poll): ASSUMED for the index contents (C19 covers the index)",
     "tools/translate_bootstrap.py: main.rs persists the bootstrap tip when none is stored; chain_monitor.rs persists on a better tip only",
     "the harness replicates main()'s bootstrap (tower key from the keys table, last known block or the node's best tip, components on the last 100 "
     "blocks below it, catch-up poll) because the binary's main cannot be called; the replicated steps follow the generated flags",
-    "harness/src/bin/crash + pollworld.rs + world.rs; hook H2 crash points (teos-common/src/verif.rs) before/after every DatabaseManager write and "
-    "around both transaction commits, plus before/after every node RPC in the simulated transport; extraction + drv_crash.ml",
+    "harness/src/bin/crash + pollworld.rs + world.rs + evlog.rs; hook H2 crash points (teos-common/src/verif.rs) before/after every DatabaseManager "
+    "write and around both transaction commits, plus before/after every node RPC in the simulated transport; extraction + drv_crash.ml",
 ]
+RULE = (
+    "7 scripted histories (breach accepted / rejected / undecryptable, late appointments, reorg re-announcement, expiry and purge, "
+    "completion after 100 blocks delivered in two polls, a poll with a failed block download, a young tower) + random ones. "
+    "(1) TRACE TIE: for every operation of every uninterrupted history (each block of each poll is one operation) the micro steps the real "
+    "code went through - INSERT/UPDATE/DELETE x users/appointments/trackers, BEGIN..COMMIT with the statements inside, RPC send|getraw, the "
+    "reply, the last-known-block write - must equal the extracted CrashOps.op_segs of the model in the same state (loops over hash "
+    "containers: up to the order of iterations; a durable write outside a crash-point pair is a mismatch), and the model's tables after "
+    "the operation the implementation's. (2) for EVERY crash point met (before/after each durable write, around both transaction commits, "
+    "before/after each node RPC; the 100-block history sampled 1 in n in the quick tier) the history is re-run with a kill there: the "
+    "database as the kill left it must equal the model's CrashOps.crash_at k of that operation; then restart on the same file, catch-up, "
+    "rest of the history; compared with the uninterrupted run and, for a request lost in the crash, with the run without it (both with the "
+    "poll a restart makes at once when blocks were pending). Checked: restart succeeds with the same tower id; no dangling records at the "
+    "kill, after restart and at the end (extracted Crash.db_inv_b); crash never grants slots and costs at most the in-flight request "
+    "(extracted Crash.balance); other records equal one of the two runs; after a crash during block processing the final tables equal the "
+    "uninterrupted run's (up to the stamp of unconfirmed trackers) and every submission of that run was made. distinct = (history, crash point)")
 
 
 def flag(name):
@@ -27,6 +46,57 @@ def flag(name):
         return "1" if (m and m.group(1) == "true") else "0"
     except OSError:
         return "1"
+
+
+def crash_runs(ctx, tier, tag):
+    """Runs the crash harness (sharded) and the driver; returns (summary, FAIL lines, path) or None."""
+    env = dict(os.environ, VERIF_TIER=tier, VERIF_SEED=str(ctx.seed), VERIF_BOOTSTRAP_PERSISTS_TIP=flag("BOOTSTRAP_PERSISTS_TIP"))
+    outs = [os.path.join(ctx.work, f"cr-{tag}-{i}.txt") for i in range(NSHARDS)]
+    procs = [subprocess.Popen([ctx.bin("crash"), outs[i], str(i), str(NSHARDS)], env=env, stdout=subprocess.DEVNULL, stderr=subprocess.DEVNULL)
+             for i in range(NSHARDS)]
+    bad = [p.wait() for p in procs]
+    if any(bad):
+        ctx.broken.append({"kind": "correspondence", "what": f"crash harness exited with {bad}"})
+        return None
+    allf = os.path.join(ctx.work, f"cr-{tag}.txt")
+    with open(allf, "w") as w:
+        for o in outs:
+            w.write(open(o).read())
+            os.remove(o)
+    rc, out, _ = vlib.sh([vlib.DRIVER, allf], timeout=1200)
+    summ = vlib.parse_summary(out).get("CR")
+    if summ is None:
+        ctx.broken.append({"kind": "correspondence", "what": "driver failed on crash runs", "detail": out[-800:]})
+        return None
+    return summ, [l for l in out.splitlines() if l.startswith("FAIL")], allf
+
+
+def digest(ctx, fails):
+    """Monitor failures become violations (with replay); anything else is a broken correspondence."""
+    seen = set()
+    for f in fails[:600]:
+        m = re.match(r"FAIL mon prop=C03 line=\d+ detail=([^:]+):(\S+) case=(.*)$", f)
+        if m:
+            kind, detail, case = m.groups()
+            ctx.add_violation(f"{kind} ({detail}) in crash run {case}", {"kind": "crash-run", "case": case, "class": kind, "detail": detail},
+                              {"kind": kind})
+            continue
+        m = re.match(r"FAIL corr prop=C03 line=\d+ what=(\S+) (.*)$", f)
+        key = (m.group(1), re.sub(r"^CR \d+ \d+ \S+ -?\d+ ", "", m.group(2))[:120]) if m else ("?", f[:120])
+        if key in seen:
+            continue
+        seen.add(key)
+        if len(seen) <= 12:
+            what = {"micro-steps": "the micro steps (durable statements, RPCs, reply) of the real code differ from the model's durable trace CrashOps.op_micro",
+                    "tables": "the model's tables after an operation differ from the implementation's",
+                    "crash-db": "the database a kill left differs from the model's CrashOps.crash_at",
+                    "abort": "the model aborts on an operation of a crash history"}.get(key[0], "crash correspondence")
+            ctx.broken.append({"kind": "correspondence", "what": what, "detail": f[:700]})
+            ctx.log("correspondence: " + f[:300])
+
+
+def unknown_violation(ctx):
+    return any(vlib.match_known(ctx.known, v) is None for v in ctx.violations)
 
 
 def run(ctx):
@@ -39,57 +109,59 @@ def run(ctx):
     cov["checker_cmd"] = "cd /verif/coq && make theories/Properties/C03.vo"
     cov["trusted_base"] = TRUSTED
     if ok_h and ok_o:
-        env = dict(os.environ, VERIF_TIER=ctx.tier, VERIF_SEED=str(ctx.seed), VERIF_BOOTSTRAP_PERSISTS_TIP=flag("BOOTSTRAP_PERSISTS_TIP"))
-        outs = [os.path.join(ctx.work, f"cr-{i}.txt") for i in range(NSHARDS)]
-        procs = [subprocess.Popen([ctx.bin("crash"), outs[i], str(i), str(NSHARDS)], env=env, stdout=subprocess.DEVNULL, stderr=subprocess.DEVNULL)
-                 for i in range(NSHARDS)]
-        bad = [p.wait() for p in procs]
-        if any(bad):
-            ctx.broken.append({"kind": "correspondence", "what": f"crash harness exited with {bad}"})
-        else:
-            allf = os.path.join(ctx.work, "cr.txt")
-            with open(allf, "w") as w:
-                for o in outs:
-                    w.write(open(o).read())
-                    os.remove(o)
-            rc, out, _ = vlib.sh([vlib.DRIVER, allf], timeout=1200)
-            summ = vlib.parse_summary(out).get("CR")
-            fails = [l for l in out.splitlines() if l.startswith("FAIL")]
-            if summ is None:
-                ctx.broken.append({"kind": "correspondence", "what": "driver failed on crash runs", "detail": out[-800:]})
-            else:
-                ctx.log(f"crash runs: {summ}")
-                cov["evaluations"] = summ["cases"]
-                cov["traces_validated_against_impl"] = summ["cases"]
-                cov["distinct_nontrivial"] = summ["distinct_nontrivial"]
-                cov["histories"] = summ["histories"]
-                cov["crash_points_in_histories"] = summ["crash_points_in_histories"]
-                cov["crash_point_kinds"] = summ.get("labels", "")
-                cov["exhaustive"] = True
-                cov["rule"] = ("7 scripted histories (breach accepted / rejected / undecryptable, late appointments, reorg re-announcement, expiry and purge, "
-                               "completion after 100 blocks delivered in two polls, a poll with a failed block download, a young tower) + random ones; "
-                               "for EVERY crash point met (before/after each durable write, around both transaction commits, before/after each node RPC; the "
-                               "100-block history sampled 1 in n in the quick tier) the history is re-run with a kill there, restart on the same file, "
-                               "catch-up, rest of the history; compared with the uninterrupted run and, for a request lost in the crash, with the run "
-                               "without it. Checked: restart succeeds with the same tower id; no dangling records after restart and at the end "
-                               "(extracted Crash.db_inv_b); crash never grants slots and costs at most the in-flight request (extracted Crash.balance); "
-                               "other records equal one of the two runs; after a crash during block processing the final tables equal the uninterrupted "
-                               "run's (up to the stamp of unconfirmed trackers) and every submission of that run was made. distinct = (history, crash point)")
-                with open(allf) as f:
-                    cov["samples"] = [l.strip()[:500] for l in f if l.startswith("CR ")][:3]
-                for f in fails[:400]:
-                    m = re.match(r"FAIL mon prop=C03 line=\d+ detail=([^:]+):(\S+) case=(.*)$", f)
-                    if not m:
-                        ctx.broken.append({"kind": "correspondence", "what": f[:300]})
-                        continue
-                    kind, detail, case = m.groups()
-                    ctx.add_violation(f"{kind} ({detail}) in crash run {case}", {"kind": "crash-run", "case": case, "class": kind, "detail": detail},
-                                      {"kind": kind})
+        tiers = [ctx.tier]
+        for t in tiers:
+            r = crash_runs(ctx, t, t[0])
+            if r is None:
+                continue
+            summ, fails, allf = r
+            ctx.log(f"crash runs ({t}): {summ}")
+            cov["evaluations"] = cov.get("evaluations", 0) + summ["cases"]
+            cov["traces_validated_against_impl"] = cov.get("traces_validated_against_impl", 0) + summ["cases"]
+            cov["distinct_nontrivial"] = cov.get("distinct_nontrivial", 0) + summ["distinct_nontrivial"]
+            cov["histories"] = summ["histories"]
+            cov["crash_points_in_histories"] = summ["crash_points_in_histories"]
+            cov["crash_point_kinds"] = summ.get("labels", "")
+            cov["operations_trace_compared"] = summ.get("trace_ops", 0)
+            cov["durable_steps_trace_compared"] = summ.get("trace_durable_steps", 0)
+            cov["micro_step_kinds"] = summ.get("micro_kinds", "")
+            cov["crash_databases_compared_with_model"] = summ.get("crashdb_compared", 0)
+            cov["crash_databases_skipped_inside_unordered_loop"] = summ.get("crashdb_skipped", 0)
+            cov["exhaustive"] = True
+            cov["rule"] = RULE
+            with open(allf) as f:
+                cov["samples"] = [l.strip()[:500] for l in f if l.startswith("CR ") or l.startswith("CRTR ")][:4]
+            digest(ctx, fails)
+            # a broken tie (proof, translator, trace or crash-db correspondence) and no failing input yet: widen the search
+            if ctx.broken and not unknown_violation(ctx) and t == "quick":
+                ctx.log("a proof/translator/correspondence obligation is broken: widening the search for a failing input (thorough generator)")
+                tiers.append("thorough")
     return ctx.finish("proof")
 
 
 def replay(ctx, path):
-    obj = json.load(open(path))["replay"]
+    """Re-runs the recorded crash run (history, crash point) on the implementation with the recorded seed and tier
+    and evaluates the same monitors; exit 1 when the failure reproduces."""
+    data = json.load(open(path))
+    obj = data["replay"]
     print(json.dumps(obj, indent=1))
-    print("re-run: ./vcheck C03 (crash runs are enumerated deterministically: history, crash-point index, label, step)")
-    return 1
+    m = re.match(r"CR (\d+) (\d+) ", obj.get("case", "")) if isinstance(obj, dict) else None
+    if not m:
+        print("no single failing input is recorded (broken obligation): re-run ./vcheck C03")
+        return 1
+    ctx.translate()
+    if not (ctx.cargo_build(["crash"]) and ctx.ocaml_build()):
+        return 1
+    env = dict(os.environ, VERIF_TIER=data.get("tier", "quick"), VERIF_SEED=str(data.get("seed", 0)),
+               VERIF_BOOTSTRAP_PERSISTS_TIP=flag("BOOTSTRAP_PERSISTS_TIP"))
+    out = os.path.join(ctx.work, "cr-replay.txt")
+    rc = subprocess.call([ctx.bin("crash"), out, "case", m.group(1), m.group(2)], env=env, stdout=subprocess.DEVNULL, stderr=subprocess.DEVNULL)
+    if rc != 0:
+        print(f"crash harness exited with {rc}")
+        return 1
+    _rc, text, _ = vlib.sh([vlib.DRIVER, out], timeout=600)
+    fails = [l for l in text.splitlines() if l.startswith("FAIL")]
+    for l in fails:
+        print(l[:600])
+    print("reproduced" if fails else "not reproduced on this tree")
+    return 1 if fails else 0
